@@ -53,6 +53,8 @@ class Op:
             d["new_path"] = self.new_path
         if getattr(self, "fake_rename_from", None):
             d["rename_from_a_name_that_is_gone"] = self.fake_rename_from
+        if getattr(self, "over_empty", None):
+            d["onto_an_existing_empty_file"] = True
         if self.poison:
             d["poison"] = self.poison
             d["failing_hunks"] = self.failing
@@ -213,7 +215,7 @@ def render_op(op, strip, reverse, git, rnd):
             out.append(b"deleted file mode %06o\n" % (0o100000 | pre_mode))
         elif pre is not None and post is not None and pre_mode != post_mode:
             out.append(b"old mode %06o\nnew mode %06o\n" % (0o100000 | pre_mode, 0o100000 | post_mode))
-        if op.kind == "rename" or fake_from:
+        if op.kind == "rename" or (fake_from and not getattr(op, "old_name_removed_earlier", False)):
             out.append(b"rename from " + src_path.encode("utf-8", "surrogateescape") + b"\nrename to " + dst_path.encode("utf-8", "surrogateescape") + b"\n")
         if rnd.random() < 0.5:
             out.append(b"index %07x..%07x%s\n" % (rnd.getrandbits(28), rnd.getrandbits(28), b" 100644" if rnd.random() < 0.5 and pre_mode == post_mode else b""))
@@ -298,6 +300,7 @@ class GenConfig:
         self.p_second_fail = 0.0     # probability that a patch AFTER the first failing one is poisoned too (it is never reached
                                      # by a sequential push; a parallel push may run ahead into it)
         self.allow_done_renames = True
+        self.p_long_last_line = 0.0  # probability that a file of the starting tree ends in a line longer than an I/O buffer
         self.p_early_poison = 0.0    # probability that a poisoned file patch may be one that a LATER file patch of the same patch follows
                                      # (same file twice in one patch).  What the later one then does is not known by construction: only for
                                      # checks that need neither the reject set nor the forced result
@@ -340,6 +343,11 @@ def generate(seed, cfg=None):
             data = b"only line\n"
         if r.random() < 0.12:
             data = b""   # tracked zero-length files (e.g. __init__.py): creations may land on them
+        if data and cfg.p_long_last_line and r.random() < cfg.p_long_last_line:
+            # the LAST line is longer than an I/O buffer (it is then the last thing written to the file)
+            if not data.endswith(b"\n"):
+                data += b"\n"
+            data += b"Z" * r.choice([8192, 9000, 20000, 70000]) + (b"\n" if r.random() < 0.7 else b"")
         ws.t0[p] = (data, mode)
     npatches = r.randint(cfg.min_patches, cfg.max_patches)
     will_fail = r.random() < cfg.p_fail
@@ -420,6 +428,14 @@ def _gen_op(r, work, cfg, git, reverse, touched):
             op.fake_rename_from = "formerly/%s-%d" % (os.path.basename(p), r.randint(0, 10**6))
         if not git and cfg.allow_orig and r.random() < 0.15 and (p + ".orig") not in work:
             op.orig_style = True
+        elif not git and not reverse and cfg.allow_done_renames and r.random() < 0.12:
+            # '--- a/<a file the series removed earlier>' / '+++ b/<this file>': the old name existed when the push started
+            # and is gone by now, so the new name is the one to patch
+            t0 = getattr(cfg, "_t0", None) or {}
+            gone = [q for q in sorted(t0) if q not in work and q != p and not _clashes(q, work)]
+            if gone:
+                op.fake_rename_from = r.choice(gone)
+                op.old_name_removed_earlier = True
         work[p] = (post, mode)
     elif kind == "truncate":
         if not nonempty:
@@ -480,9 +496,17 @@ def _gen_op(r, work, cfg, git, reverse, touched):
         p = r.choice(existing)
         data, mode = work[p]
         q = _pick_new_path(r, work, cfg, touched)
+        empties = [e for e in work if not work[e][0] and e != p and e not in touched]
+        over_empty = None
+        if empties and data and r.random() < 0.3:
+            # onto a name that exists with zero length: accepted (like a creation onto an empty file); undoing it must bring
+            # the empty file back with its own mode
+            q = r.choice(empties)
+            over_empty = work[q]
         post = mutate_content(r, data) if (data and r.random() < 0.6) else data
         op = Op("rename", p, new_path=q, pre=data, post=post, pre_mode=mode, post_mode=mode)
         op.style = "git"
+        op.over_empty = over_empty
         del work[p]
         work[q] = (post, mode)
         touched.add(q)
